@@ -113,7 +113,7 @@ def _all_blocks(prog):
 
 def has_call(e):
     if isinstance(e, dict):
-        return e.get("k") in ("call", "catch") or any(has_call(v) for v in e.values())
+        return e.get("k") in ("call", "catch", "callv", "fnlit") or any(has_call(v) for v in e.values())
     if isinstance(e, list):
         return any(has_call(v) for v in e)
     return False
@@ -193,7 +193,7 @@ def _never_changed(prog, bname, name):
 
     def walk(n):
         if isinstance(n, dict):
-            if n.get("k") in ("assign", "append") and root(n["lv"]) == name:
+            if n.get("k") in ("assign", "append", "opassign") and root(n["lv"]) == name:
                 bad[0] = True
             if n.get("k") == "addr" and root(n["e"]) == name:      # a constant is not addressable in Ferret
                 bad[0] = True
